@@ -10,6 +10,11 @@
 
 History ops (JSON lists):
   ['W', d, sub, base, content, bad]   write file  <dir d>/[sub/]t<base>.html
+  ['WA', d, sub, base, content, bad, mtime]   write file with an explicit logical mtime, possibly
+                                      older than the current one (restore from backup, rsync -t);
+                                      the generator keeps it different from every mtime the loader
+                                      remembers for that file (a different content under a
+                                      remembered mtime is the limit of mtime-based reloading)
   ['T', d, sub, base]                 touch (new mtime, same content)
   ['X', d, sub, base]                 delete
   ['L', {base, sub, absd, rel, cls, enc, cb, fault}]   load
@@ -89,6 +94,8 @@ def validate(cfg, ops):
             break
         if op[0] == 'W':
             ok = len(op) == 6 and op[1] in range(NDIRS)
+        elif op[0] == 'WA':
+            ok = len(op) == 7 and op[1] in range(NDIRS) and isinstance(op[6], int) and op[6] >= 0
         elif op[0] in ('T', 'X'):
             ok = len(op) == 4 and op[1] in range(NDIRS)
         elif op[0] in ('L', 'LR'):
@@ -132,6 +139,9 @@ class PropSpec(object):
         if op[0] == 'W':
             self.fs[loc] = (op[4], op[5], self.clock)
             self.clock += 1
+        elif op[0] == 'WA':
+            self.fs[loc] = (op[4], op[5], op[6])
+            self.clock = max(self.clock, op[6] + 1)
         elif op[0] == 'T':
             if loc in self.fs:
                 c, b, _ = self.fs[loc]
@@ -139,6 +149,15 @@ class PropSpec(object):
                 self.clock += 1
         elif op[0] == 'X':
             self.fs.pop(loc, None)
+
+    def remembered(self, loc):
+        """the mtimes the loader remembers for a file (cached templates parsed from it)"""
+        return set(e.mtime for e in self.cache.values() if e.loc == loc)
+
+    def fresh_time(self, loc, m):
+        """may a modification of this file set mtime m?  It must differ from what the loader
+        remembers for the file (and, so that it is a modification at all, from the current one)"""
+        return m not in self.remembered(loc) and (loc not in self.fs or self.fs[loc][2] != m)
 
     def first_on_path(self, r, key, entries):
         """walk the path: ('found', loc, file, reloadable) | ('notfound',) | ('loadfunc',)"""
@@ -306,7 +325,7 @@ def gen_req(rng, cfg, existing=()):
     return r
 
 
-def gen_history(rng, maxlen=25, allow_shadow=0.5, race=0.12):
+def gen_history(rng, maxlen=25, allow_shadow=0.5, race=0.12, backwards=0.3):
     """-> (cfg, ops, shadow)"""
     cfg = gen_config(rng)
     spec = PropSpec(cfg, strict=True)
@@ -368,6 +387,18 @@ def gen_history(rng, maxlen=25, allow_shadow=0.5, race=0.12):
         if x < 0.24 or (not spec.fs and x < 0.6):
             content += 1
             op = ['W', d, sub, base, content, rng.random() < 0.08]
+            if rng.random() < backwards:
+                # a modification with an arbitrary mtime, preferably of a file a cached template
+                # came from and older than its current one
+                cached = sorted(set(e.loc for e in spec.cache.values() if e.loc in spec.fs))
+                if cached and rng.random() < 0.8:
+                    d, sub, base = rng.choice(cached)
+                cur = spec.fs.get((d, sub, base))
+                m = rng.randrange(0, spec.clock + 2)
+                if cur is not None and cur[2] > 0 and rng.random() < 0.7:
+                    m = rng.randrange(0, cur[2])
+                if spec.fresh_time((d, sub, base), m):
+                    op = ['WA', d, sub, base, content, rng.random() < 0.05, m]
         elif x < 0.31:
             if not spec.fs:
                 continue
@@ -509,6 +540,11 @@ class RealRun(object):
                 f.write(content_bytes(op[4], op[5]))
             os.utime(p, (T0 + self.clock, T0 + self.clock))
             self.clock += 1
+        elif op[0] == 'WA':
+            with open(p, 'wb') as f:
+                f.write(content_bytes(op[4], op[5]))
+            os.utime(p, (T0 + op[6], T0 + op[6]))
+            self.clock = max(self.clock, op[6] + 1)
         elif op[0] == 'T':
             if os.path.exists(p):
                 os.utime(p, (T0 + self.clock, T0 + self.clock))
@@ -659,6 +695,8 @@ def wire_history(cfg, ops):
     for op in ops:
         if op[0] == 'W':
             wops.append([Atom('W'), op[1], B(op[2]), op[3], op[4], B(op[5])])
+        elif op[0] == 'WA':
+            wops.append([Atom('WA'), op[1], B(op[2]), op[3], op[4], B(op[5]), op[6]])
         elif op[0] in 'TX':
             wops.append([Atom(op[0]), op[1], B(op[2]), op[3]])
         else:
